@@ -226,6 +226,9 @@ func decodeWKB(c *mc.Ctx, b []byte, level int) (ok bool) {
 			guard(c, "wkb."+entry+"/hex", len(h), hx(b), func() { wkb.Scanner(mk()).Scan(cp(h)) })
 			x := append([]byte("\\x"), h...)
 			guard(c, "ewkb."+entry+"/xhex", len(x), hx(b), func() { ewkb.Scanner(mk()).Scan(cp(x)) })
+			guard(c, "ewkb.PrefixSRID"+entry+"/hex", len(h), hx(b), func() { ewkb.ScannerPrefixSRID(mk()).Scan(cp(h)) })
+			guard(c, "ewkb.PrefixSRID"+entry+"/xhex", len(x), hx(b), func() { ewkb.ScannerPrefixSRID(mk()).Scan(cp(x)) })
+			guard(c, "wkb."+entry+"/xhex", len(x), hx(b), func() { wkb.Scanner(mk()).Scan(cp(x)) })
 		}
 	}
 	return
@@ -739,6 +742,8 @@ func main() {
 			guard(c, "ewkb."+entry, len(b), hx(b), func() { ewkb.Scanner(mk()).Scan(cp(b)) })
 			pb := append([]byte{0xe6, 0x10, 0, 0}, b...)
 			guard(c, "ewkb.PrefixSRID"+entry, len(pb), hx(pb), func() { ewkb.ScannerPrefixSRID(mk()).Scan(cp(pb)) })
+			// and the bare text (a value that is hex text where a binary prefix is expected)
+			guard(c, "ewkb.PrefixSRID"+entry+"/bare", len(b), hx(b), func() { ewkb.ScannerPrefixSRID(mk()).Scan(cp(b)) })
 		}
 	})
 	r.ExploreSharded("wkt-sentences", fmt.Sprintf("every sentence of 0..%d tokens over %v through Unmarshal and the 7 typed parsers", nt, tokens), mc.Opts{MaxDev: -1}, 16, func(c *mc.Ctx) {
